@@ -63,6 +63,12 @@ AttrCases == IF Part # 0 THEN {} ELSE
         d \in {-1, 0, 1}, f \in {"write", "resp"}}
 ASSUME \A a \in AttrCases : (a.len + a.delta < 0) \/ PrintT(<<"ATTR", ToJson([at |-> a, exp |-> AttrType(a)])>>)
 
+\* free-format objects
+FfCases == IF Part # 0 THEN {} ELSE
+    {[v |-> v, n |-> n, delta |-> d, follow |-> fo, trunc |-> tr, fnc |-> f] :
+        v \in 2..8, n \in {0, 3, 40}, d \in {-1, 0, 2}, fo \in {0, 1}, tr \in {0, 1}, f \in {"write", "resp"}}
+ASSUME \A c \in FfCases : (FfFixed(c.v) + c.n + c.delta < 0) \/ PrintT(<<"FF", ToJson([ff |-> c, exp |-> FfVerdict(c)])>>)
+
 Init == x = 0
 Next == x' = x
 Spec == Init /\ [][Next]_x
